@@ -38,6 +38,28 @@ var lastHeld atomic.Value // string: the sender reference a worker saw for a pen
 type boom struct{}
 type selfKill struct{ poison bool }
 
+// collector: the forwarder of Future.PipeTo calls made from outside goroutines; never killed, never fails
+type collector struct {
+	got   atomic.Int64
+	dup   atomic.Int64
+	empty atomic.Int64 // results that carry neither a reply nor an error
+	seen  sync.Map     // n of a successful result -> struct{}
+}
+
+func (c *collector) OnReceive(ctx vivid.ActorContext) {
+	if pr, ok := ctx.Message().(*vivid.PipeResult); ok {
+		c.got.Add(1)
+		if pr.Message == nil && pr.Error == nil {
+			c.empty.Add(1)
+		}
+		if p, ok := pr.Message.(*ping); ok && pr.Error == nil {
+			if _, again := c.seen.LoadOrStore(p.n, struct{}{}); again {
+				c.dup.Add(1)
+			}
+		}
+	}
+}
+
 // worker: echoes, spawns children, fails, kills itself — driven by messages from many goroutines
 type worker struct {
 	depth int
@@ -125,9 +147,21 @@ func TestC10Stress(t *testing.T) {
 			}
 			return refs[y%uint64(len(refs))]
 		}
+		// forwarders of Future.PipeTo: outside the pool of victims
+		cols := make([]*collector, 3)
+		colRefs := make([]vivid.ActorRef, len(cols))
+		pipeCalls := make([]atomic.Int64, len(cols))
+		for i := range cols {
+			cols[i] = &collector{}
+			cr, err := sys.ActorOf(cols[i], vivid.WithActorName(fmt.Sprintf("collector-%d", i)))
+			if err != nil {
+				t.Fatal(err)
+			}
+			colRefs[i] = cr
+		}
 		var bad atomic.Value
 		fail := func(sig, format string, a ...any) { bad.CompareAndSwap(nil, [2]string{sig, fmt.Sprintf(format, a...)}) }
-		var overlap, named, collisions, lookups atomic.Int64
+		var overlap, named, collisions, lookups, pipes atomic.Int64
 		var wg sync.WaitGroup
 		for g := 0; g < nGo; g++ {
 			wg.Add(1)
@@ -136,7 +170,7 @@ func TestC10Stress(t *testing.T) {
 				y := x ^ (uint64(g)+1)*0xbf58476d1ce4e5b9
 				for i := 0; i < opsPer; i++ {
 					y = y*6364136223846793005 + 1442695040888963407
-					switch (y >> 33) % 17 {
+					switch (y >> 33) % 18 {
 					case 0, 1, 2:
 						ref, err := sys.ActorOf(&worker{stats: st})
 						if err != nil {
@@ -192,6 +226,10 @@ func TestC10Stress(t *testing.T) {
 								fail("C10/find-actor", "FindActor(%s) returned %s", ref, got)
 							}
 							_ = ref.Clone().String()
+							// "any ActorRef": one shared reference object read from many goroutines while others send through it
+							if cl := ref.Clone(); !cl.Equals(ref) || cl.GetPath() != ref.GetPath() || cl.GetAddress() != ref.GetAddress() || len(ref.ToActorRefs()) != 1 {
+								fail("C10/ref", "a clone of %s differs from it: %s", ref, cl)
+							}
 						}
 					case 9:
 						if ref := pick(y >> 20); ref != nil {
@@ -227,6 +265,41 @@ func TestC10Stress(t *testing.T) {
 						if ref := pick(y >> 20); ref != nil {
 							sys.Tell(ref, &spawnNamed{name: fmt.Sprintf("kid-%d", (y>>45)%3)})
 						}
+					case 17:
+						// Future.PipeTo from a second goroutine while reply, timeout and Close race the registration:
+						// the forwarder gets the result exactly once whichever side wins
+						if ref := pick(y >> 20); ref != nil {
+							tmo := []time.Duration{time.Microsecond, 5 * time.Microsecond, 20 * time.Microsecond, 100 * time.Microsecond, 200 * time.Millisecond}[(y>>41)%5]
+							uniq := (g+1)<<20 | i
+							ci := int((y >> 43) % uint64(len(cols)))
+							f := sys.Ask(ref, &ping{n: uniq}, tmo)
+							var pw sync.WaitGroup
+							pw.Add(2)
+							spinP, spinC := (y>>52)%300, (y>>56)%200
+							go func() {
+								defer pw.Done()
+								for k := uint64(0); k < spinP; k++ {
+									_ = k
+								}
+								pipeCalls[ci].Add(1)
+								if err := f.PipeTo(colRefs[ci].ToActorRefs()); err != nil {
+									fail("C10/api-error", "Future.PipeTo: %v", err)
+								}
+							}()
+							closeIt := (y>>47)%3 == 0
+							go func() {
+								defer pw.Done()
+								if closeIt {
+									for k := uint64(0); k < spinC; k++ {
+										_ = k
+									}
+									f.Close(errClosedByTest)
+								}
+							}()
+							_ = f.Wait()
+							pw.Wait()
+							pipes.Add(1)
+						}
 					case 16:
 						// look up what the receiver of a pending Ask sees as its sender (a requester that is a future, not
 						// an actor): any answer, never a crash
@@ -259,7 +332,7 @@ func TestC10Stress(t *testing.T) {
 		for stable < 5 && time.Now().Before(deadline) {
 			time.Sleep(30 * time.Millisecond)
 			states = sys.VerifActors()
-			cur := fmt.Sprintf("%+v|%d", states, st.handled.Load())
+			cur := fmt.Sprintf("%+v|%d|%d,%d,%d", states, st.handled.Load(), cols[0].got.Load(), cols[1].got.Load(), cols[2].got.Load())
 			if cur == last {
 				stable++
 			} else {
@@ -321,6 +394,19 @@ func TestC10Stress(t *testing.T) {
 				fail("C10/tree-consistency", "%d goroutines x %d ops, decision %s (%s): %s", nGo, opsPer, dec, kind, strings.Join(problems, "; "))
 			}
 		}
+		if stable >= 5 {
+			for i, c := range cols {
+				if got, want := c.got.Load(), pipeCalls[i].Load(); got != want {
+					fail("C10/pipe-exactly-once", "forwarder %s of %d Future.PipeTo calls (one per future) received %d results", colRefs[i], want, got)
+				}
+				if e := c.empty.Load(); e > 0 {
+					fail("C10/pipe-exactly-once|empty-result", "forwarder %s received %d results that carry neither the reply nor an error (every piped Ask ends with its reply, a timeout or Close(err))", colRefs[i], e)
+				}
+				if d := c.dup.Load(); d > 0 {
+					fail("C10/pipe-exactly-once|duplicate", "forwarder %s received %d successful results twice", colRefs[i], d)
+				}
+			}
+		}
 		if n := st.badSpawn.Load(); n > 0 {
 			fail("C10/api-error", "%d named ActorOf calls inside actors failed with something else than ActorAlreadyExists", n)
 		}
@@ -342,6 +428,7 @@ func TestC10Stress(t *testing.T) {
 		vstat.Add("api_calls", int64(nGo*opsPer))
 		vstat.Add("name_collisions", collisions.Load())
 		vstat.Add("lookups_of_pending_ask_senders", lookups.Load())
+		vstat.Add("futures_piped_from_a_second_goroutine", pipes.Load())
 		if b := bad.Load(); b != nil {
 			sv := b.([2]string)
 			if !vstat.Fail(sv[0], sv[1], nil) {
